@@ -376,7 +376,7 @@ def run(ctx):
     # ---------------------------------------------------------------- 2. re-prove theorems
     if gen_ok:
         shutil.copy(PROPS / "Prop_C16.v", rd / "Prop_C16.v")
-        ctx.prove(rd / "Prop_C16.v", "Prop_C16.v (theorems re-proved against Gen_schema.v / Gen_defaults.v)",
+        ctx.prove(rd / "Prop_C16.v", "Prop_C16.v (22 theorems; part B re-proved against regenerated Gen_schema.v / Gen_defaults.v)",
                   "theorem-file", extra_Q=[(rd, "CijGen")])
 
     # ---------------------------------------------------------------- 3. run the implementation
@@ -459,7 +459,7 @@ def run(ctx):
         merge_and_judge(u, d, tag)
     for u, d in [([], {}), ({}, None), (None, None), ({"a": 1}, 3), ("x", {"a": 1})]:
         add_merge(u, d, "non-dict-argument")
-    n_rand = 700 if thorough else 110
+    n_rand = 2000 if thorough else 110
     for i in range(n_rand):
         depth = rng.choice([1, 2, 3, 4, 4])
         d = rtree(rng, depth)
@@ -566,7 +566,7 @@ def run(ctx):
     add_apply({"qha": {}, "elast": {}, "output": {"pressure_base": {"cij": True}}}, "D11-valid-config")
     add_apply({"qha": {"settings": {"static_only": {"x": 1}}}, "elast": {}}, "D11-valid-config")
     add_apply({"qha": 5, "elast": None}, "leaf-over-dict")
-    for i in range(120 if thorough else 30):
+    for i in range(300 if thorough else 30):
         if i % 3 == 2:
             u = rtree(rng, 3)
             tag = "random-tree"
